@@ -15,11 +15,11 @@ def sig(s, trace, why):
     return "c05:close-or-later-call"
 
 
-def learn_shape(wd):
+def learn_shape(wd, role="client"):
     """run the driver alone, then one request task alone, and read Rounds / Order / steps off the pre-emption points they pass"""
     scn = os.path.join(wd, "probe.scn")
     out = os.path.join(wd, "probe.trace")
-    json.dump({"id": "probe", "streams": ["settings"], "driver": "none", "schedule": [0] * 40 + [1] * 40}, open(scn, "w"))
+    json.dump({"id": "probe", "role": role, "streams": ["settings"], "driver": "none", "schedule": [0] * 40 + [1] * 40}, open(scn, "w"))
     vlib.h3v("sched", scn, out)
     pts, spts = [], []
     parked = False
@@ -40,46 +40,55 @@ def learn_shape(wd):
     return rounds, order, pts, spts
 
 
-def run(tier, chk):
-    wd = vlib.workdir("C05")
-    rounds, order, pts, spts = learn_shape(wd)
-    chk.notes["shape_of_real_code"] = {"rounds_per_driver_poll": rounds, "order": order, "driver_first_poll_points": pts, "request_task_points": spts}
+def run_role(tier, chk, wd, role):
+    rounds, order, pts, spts = learn_shape(wd, role)
+    chk.notes.setdefault("shape_of_real_code", {})[role] = {"rounds_per_driver_poll": rounds, "order": order, "driver_first_poll_points": pts, "request_task_points": spts}
     # design level: does the property hold for this shape?  (a failure here is information, the verdict comes from the replay)
-    cfg = os.path.join(wd, "mc.cfg")
+    cfg = os.path.join(wd, f"mc-{role}.cfg")
     n = 2 if tier == "quick" else 3
     streams = ", ".join(f'"s{i}"' for i in range(1, n + 1))
     open(cfg, "w").write(f'SPECIFICATION Spec\nCONSTANTS Streams = {{{streams}}}\n Rounds = {rounds}\n Order = "{order}"\n DriverErr = TRUE\n'
                          "INVARIANT SingleOutcome\nINVARIANT NoLostWakeup\nPROPERTY Eventually\nCHECK_DEADLOCK FALSE\n")
-    mc = vlib.tlc("ConnError", cfg, name="mc", wd=wd, workers=4, coverage=True)
-    chk.add_tlc("mc", mc)
-    chk.notes["design_level"] = "ConnError.tla holds for the shape of the real code" if mc.ok else "ConnError.tla VIOLATED for the shape of the real code (see replay results)"
+    mc = vlib.tlc("ConnError", cfg, name=f"mc-{role}", wd=wd, workers=4, coverage=True)
+    chk.add_tlc(f"mc-{role}", mc)
+    chk.notes.setdefault("design_level", {})[role] = "ConnError.tla holds for the shape of the real code" if mc.ok else "ConnError.tla VIOLATED for the shape of the real code (see replay results)"
     for a in ("StreamStore", "StreamWake", "DriverRegister", "DriverChkCell"):
         if mc.coverage.get(a, 0) == 0:
             raise vlib.ToolError(f"vacuity: action {a} of ConnError never taken")
     # replay: every interleaving for one request task; two (three) tasks sampled / bounded
     dsteps = len(pts) + 2 if tier == "quick" else 2 * len(pts) + 4
     ssteps = len(spts)
-    s1 = common.gen_scenarios(chk, wd, "C05_Gen", cfg_text=f"SPECIFICATION Spec\nCONSTANTS N = 1\n DriverSteps = {dsteps}\n StreamSteps = {ssteps}\nINVARIANT Emit\nCHECK_DEADLOCK FALSE\n", workers=4, label="g1")
+    gcfg = lambda n: f"SPECIFICATION Spec\nCONSTANTS N = {n}\n DriverSteps = {dsteps}\n StreamSteps = {ssteps}\nINVARIANT Emit\nCHECK_DEADLOCK FALSE\n"
+    s1 = common.gen_scenarios(chk, wd, "C05_Gen", cfg_text=gcfg(1), workers=4, label=f"g1{role[0]}")
     sim_n = 1500 if tier == "quick" else 20000
-    s2 = common.gen_scenarios(chk, wd, "C05_Gen", cfg_text=f"SPECIFICATION Spec\nCONSTANTS N = 2\n DriverSteps = {dsteps}\n StreamSteps = {ssteps}\nINVARIANT Emit\nCHECK_DEADLOCK FALSE\n",
-                              workers=1, label="g2", simulate=sim_n, depth=dsteps + 10)
-    scns = s1 + s2
+    scns = s1 + common.gen_scenarios(chk, wd, "C05_Gen", cfg_text=gcfg(2), workers=1, label=f"g2{role[0]}", simulate=sim_n, depth=dsteps + 10)
     if tier != "quick":
-        s3 = common.gen_scenarios(chk, wd, "C05_Gen", cfg_text=f"SPECIFICATION Spec\nCONSTANTS N = 3\n DriverSteps = {dsteps}\n StreamSteps = {ssteps}\nINVARIANT Emit\nCHECK_DEADLOCK FALSE\n",
-                                  workers=1, label="g3", simulate=sim_n, depth=dsteps + 14)
-        scns += s3
-    common.run_sim(chk, wd, scns, "C05_Trace", shards=12, sig_of=sig, runner="sched")
+        scns += common.gen_scenarios(chk, wd, "C05_Gen", cfg_text=gcfg(3), workers=1, label=f"g3{role[0]}", simulate=sim_n, depth=dsteps + 14)
+    for s in scns:
+        s["role"] = role
+    common.run_sim(chk, wd, scns, "C05_Trace", shards=12, sig_of=sig, runner="sched", label=f"sim-{role}")
+    return len(scns), len(s1), rounds, order, sim_n
+
+
+def run(tier, chk):
+    wd = vlib.workdir("C05")
+    total = 0
+    parts = []
+    for role in ("client", "server"):
+        n, n1, rounds, order, sim_n = run_role(tier, chk, wd, role)
+        total += n
+        parts.append(f"{role}: {rounds} check/register rounds per driver poll ({order}), {n1} exhaustive single-task schedules")
     if tier != "quick":
         # sequential executions too: in every scenario family of the simulator-based checks all reported connection errors agree and match the close code
         common.run_mc(chk, wd, "H3Conn", must_cover=("Detect", "PeerClose", "Handle", "Report", "SendGoaway", "RecvGoaway"), label="h3conn-mc")
         corpus.cross(chk, "C05", "H3Conn_Trace", env_extra={"INV": "ERR"}, sig_of=lambda s, t, w: "c05:corpus:different-errors-or-close-code")
     chk.exhaustive = False
-    chk.distinct_nontrivial = len(scns)
-    chk.notes["exhaustive_part"] = f"{len(s1)} schedules: every interleaving of one request task with the driver's first polls x 3 driver situations"
-    chk.rule = (f"driver (client poll_close, {rounds} poll_connection_error rounds per poll, order {order}) x 1 request task: every interleaving at pre-emption-point granularity x "
+    chk.distinct_nontrivial = total
+    chk.notes["exhaustive_part"] = parts
+    chk.rule = ("both roles (client driver poll_close, server driver accept) x 1 request task: every interleaving at pre-emption-point granularity x "
                 "{no own error, own error (missing SETTINGS), remote close}; 2 (3) request tasks raising different errors (unexpected frame, truncated frame, QPACK failure): "
                 f"{sim_n} TLC-simulated schedules each; every schedule executed on OS threads released one step at a time")
-    chk.assumptions = ["AtomicWaker, OnceLock and Arc are linearizable at the granularity of the pre-emption points", "client driver (poll_close); the server driver shares the same three call sites"]
+    chk.assumptions = ["AtomicWaker, OnceLock and Arc are linearizable at the granularity of the pre-emption points"]
 
 
 def replay(path, chk):
